@@ -1137,7 +1137,10 @@ def p_qualifier(p):
             parser_token=p)
 
     flavors = _build_flavors(p, flavorlist, qualdecl, qualdecl.name)
-    if qval is None:
+    if len(p) in (3, 5):
+        # A qualifier value was specified (possibly NULL)
+        qval = cimvalue(qval, qualdecl.type)
+    elif qval is None:
         if qualdecl.type == 'boolean':
             qval = True
         else:
